@@ -78,3 +78,7 @@ type (
 
 func MetavarsWrite(w io.Writer, f *MetavarsFile) error { return metavars.Write(w, f) }
 func MetavarsRead(r io.Reader) (*MetavarsFile, error)  { return metavars.Read(r) }
+func MetavarsWriteFile(filename string, f *MetavarsFile) error {
+	return metavars.WriteFile(filename, f)
+}
+func MetavarsReadFile(filename string) (*MetavarsFile, error) { return metavars.ReadFile(filename) }
